@@ -245,6 +245,11 @@ def _hook_point(proc, hook, pos):
         w.hooks.setdefault(pid, []).append((hook, pos, Process.current() is proc))
     else:
         w.hooks.setdefault(pid, []).append((hook, pos, None))
+    for plan in w.hook_plan.get(pid, ()) if pid in w.extra.get('constructed', ()) else ():
+        # (hooks fired inside the constructor run before the harness holds the process: no requests from there)
+        if plan['hook'] == hook and plan['occ'] == cnt and plan['pos'] == pos:
+            do = plan['do']
+            control(proc, do[0], do[1] if len(do) > 1 else None, who=f'hook:{hook}:{pos}')
     f = w.fault
     if f is not None and f['hook'] == hook and f['occ'] == cnt and f['pos'] == pos and f.get('pid', pid) == pid:
         if w.fault_fired is None:
@@ -345,15 +350,27 @@ class ProgBase(HookMixin, ContextMixin, Process):
                     raise exc
 
             self.call_soon(callback)
+        elif kind == 'soon_parent':
+            # schedule a callback on the process that launched / executed this one (on itself if there is none)
+            target = world.cur().extra.get('parent', {}).get(self.pid, self)
+            tag = item[1]
+            tpid = target.pid
+
+            def parent_callback(proc=target):
+                world.cur().tr(tpid, {'k': 'cb', 'tag': tag, 'cur': Process.current() is proc, 'state': proc.state.value, 'from_child': True})
+
+            target.call_soon(parent_callback)
         elif kind == 'raise':
             exc = ProgError(item[1])
             world.cur().extra.setdefault('raised', []).append(exc)
             raise exc
         elif kind == 'launch':
+            world.cur().extra.setdefault('parent', {})[f'{self.pid}/{item[2]}'] = self
             child = self.launch(make_class(item[1]), pid=f'{self.pid}/{item[2]}')
             world.cur().extra.setdefault('children', []).append(child)
             self._t('launched', idx, child=item[2])
         elif kind == 'nested':
+            world.cur().extra.setdefault('parent', {})[f'{self.pid}/{item[2]}'] = self
             child = make_class(item[1])(pid=f'{self.pid}/{item[2]}', loop=self.loop)
             world.cur().extra.setdefault('children', []).append(child)
             child.execute()
